@@ -69,6 +69,11 @@ func genContFile(c *core.Ctx, i int, codecIdx int, maxRecs int) *contFile {
 		if len(rest) > 0 {
 			blocks = append(blocks, rest)
 		}
+		if r.IntN(3) == 0 {
+			// a block that declares zero records is legal; its payload is still compressed, checksummed and sync-terminated
+			at := r.IntN(len(blocks) + 1)
+			blocks = append(blocks[:at:at], append([][]any{{}}, blocks[at:]...)...)
+		}
 		var sync [16]byte
 		for k := range sync {
 			sync[k] = byte(r.IntN(256))
@@ -235,6 +240,15 @@ func runC07(c *core.Ctx, i int) {
 	if d := cmpVals(cf.t, want, o.vals); d != "" {
 		c.Violate("intact-file", fmt.Sprintf("intact file delivered wrong records: %s [%s]", d, cf.desc), cf.rep(cf.file, "none"))
 		return
+	}
+	// the same intact file through readers that return short reads / one byte at a time
+	for shape, rd := range []avro.Reader{bufio.NewReaderSize(&oneByteReader{b: cf.file}, 16), bufio.NewReaderSize(&eofTogetherReader{b: cf.file}, 16), bufio.NewReader(&oneByteReader{b: cf.file})} {
+		o := readCollect(rd, rt, -1, nil)
+		c.Eval(1)
+		if o.pan != nil || o.err != nil || cmpVals(cf.t, want, o.vals) != "" {
+			c.Violate("intact-file", fmt.Sprintf("intact file through reader shape %d: err=%v panic=%v %s [%s]", shape+1, o.err, o.pan, cmpVals(cf.t, want, o.vals), cf.desc), cf.rep(cf.file, "none"))
+			return
+		}
 	}
 	c.Count("files."+cf.origin, 1)
 	c.Count("files.codec."+cont.Codec, 1)
